@@ -660,6 +660,9 @@ def _scatter(ax: Axes, arguments, **kwargs):
         for z_order in np.unique(zorder):
             zorder_mask = z_order == zorder
             logical = mark_mask & zorder_mask
+            if not logical.any():
+                # no agent with this marker at this zorder (scatter rejects empty per-agent alpha arrays)
+                continue
 
             ax.scatter(
                 x[logical],
